@@ -172,6 +172,31 @@ def _parse_chunk(items):
     return out
 
 
+def _edit_chunk(items):
+    """C10's edit histories (Edits!ChooseEdit) applied to real databases with the recorder on"""
+    from . import container_trace as ct, c10, builder
+    from .surface import print_doc
+    from pydbml import PyDBML
+    ct.install()
+    out = []
+    for tid, d in items:
+        ct.reset()
+        try:
+            db = PyDBML(print_doc(d['doc'], None, {})) if tid % 2 else builder.build(d['model'])
+            for h in d['history']:
+                c10.apply_edit(db, h['edit'])
+        except Exception:
+            pass
+        seen = set()
+        for e in ct.EVENTS:
+            k = json.dumps([e['call'], e['outcome'], e['pre'], e['post']], sort_keys=True)
+            if k not in seen:
+                seen.add(k)
+                out.append({'call': e['call'], 'outcome': e['outcome'], 'pre': e['pre'], 'post': e['post'],
+                            'where': {'edit_history_seed': tid, 'edits': [h['edit'] for h in d['history']]}})
+    return out
+
+
 def suite_events() -> List[Dict[str, Any]]:
     """run the repository's own test-suite with the recorder loaded as a pytest plugin (nothing is written to the repository)"""
     import os
@@ -204,6 +229,11 @@ def check_recorded(rep: core.Report):
     items = [(sd, d, sd % 2 == 0) for sd, d in gen] + [(sd, f['doc'], False) for sd, f in faults]
     for part in core.pmap(_parse_chunk, core.chunked(items, core.NCPU * 2)):
         evs += part
+    from . import c10
+    nh = 150 if core.tier() == 'quick' else 3000
+    hs = c10.gen(base + 1, base + nh, 6, False, rep)
+    for part in core.pmap(_edit_chunk, core.chunked(hs, core.NCPU * 2)):
+        evs += part
     for i, e in enumerate(evs):
         e['tid'] = i + 1
     verdicts, st = core.validate('TraceContainerInv', 'TraceContainerInv.cfg',
@@ -231,7 +261,7 @@ def check_recorded(rep: core.Report):
             raise core.Machinery('recorded executions never showed %r' % need)
     rep.notes['recorded_executions'] = {
         'test_suite_calls': nsuite, 'test_suite_calls_not_describable': skipped, 'pytest_exit': rc,
-        'parser_calls': len(evs) - nsuite, 'documents_parsed': len(items), 'pre_state_inconsistent_not_judged': unjudged,
+        'parser_and_edit_calls': len(evs) - nsuite, 'documents_parsed': len(items), 'edit_histories': len(hs), 'pre_state_inconsistent_not_judged': unjudged,
         'accepted_by_call_and_outcome': dict(sorted(cov.items()))}
 
 
